@@ -9,11 +9,15 @@
 package main
 
 import (
+	"bufio"
 	"fmt"
 	"io/ioutil"
 	"log"
 	"net"
+	"os"
+	"os/exec"
 	"sort"
+	"strconv"
 	"strings"
 	"sync"
 	"time"
@@ -376,6 +380,9 @@ func (e *evWorld) noteRefreshAfterBatch(rows []evRow) { e.noteRefresh(rows) }
 
 // ---- generation
 
+// runE2E runs every scenario in a CHILD PROCESS (this binary, mode `e2echild`): gocql handles events, refreshes and
+// connects on its own goroutines, where a panic cannot be recovered and kills the process — in a child that is
+// observed as the answer `crash:process-died` of the op in flight instead of taking the whole run down.
 func runE2E(r *vh.Rng, out *vh.Out, tier string) {
 	scen := 24
 	if tier == "thorough" {
@@ -394,10 +401,7 @@ func runE2E(r *vh.Rng, out *vh.Out, tier string) {
 		go func(i int) {
 			defer wg.Done()
 			defer func() { <-sem }()
-			g := &evGen{r: vh.NewRng(seeds[i]), w: &world{}}
-			g.e2e(i)
-			g.w.ev.close()
-			results[i] = g.cases
+			results[i] = e2eParent(seeds[i], i)
 		}(i)
 	}
 	wg.Wait()
@@ -406,6 +410,44 @@ func runE2E(r *vh.Rng, out *vh.Out, tier string) {
 			out.Case(c.op, c.ans, c.class, c.nt)
 		}
 	}
+}
+
+func e2eParent(seed uint64, idx int) []evCase {
+	cmd := exec.Command(os.Args[0], "e2echild", strconv.FormatUint(seed, 10), strconv.Itoa(idx))
+	cmd.Stderr = nil
+	stdout, err := cmd.StdoutPipe()
+	if err != nil || cmd.Start() != nil {
+		return []evCase{{"reset e2e - - 0 -", "fatal:cannot-start-child", "e2e/child", false}}
+	}
+	var cases []evCase
+	pending := "" // op announced, answer not yet seen
+	pclass := ""
+	sc := bufio.NewScanner(stdout)
+	sc.Buffer(make([]byte, 1<<20), 1<<26)
+	for sc.Scan() {
+		f := strings.SplitN(sc.Text(), "\t", 3)
+		switch {
+		case f[0] == "B" && len(f) == 3:
+			pending, pclass = f[2], f[1]
+		case f[0] == "E" && len(f) >= 2 && pending != "":
+			cases = append(cases, evCase{pending, strings.Join(f[1:], "\t"), pclass, true})
+			pending = ""
+		}
+	}
+	cmd.Wait()
+	if pending != "" {
+		cases = append(cases, evCase{pending, "crash:process-died", pclass, true})
+	}
+	return cases
+}
+
+// e2eChild runs one scenario and reports every op before (B) and after (E) executing it
+func e2eChild(seedS, idxS string) {
+	seed, _ := strconv.ParseUint(seedS, 10, 64)
+	g := &evGen{r: vh.NewRng(seed), w: &world{}, child: bufio.NewWriter(os.Stdout)}
+	g.e2e(atoi(idxS))
+	g.w.ev.close()
+	g.child.Flush()
 }
 
 func (g *evGen) e2e(idx int) {
